@@ -259,3 +259,56 @@ func readJSONFile(path string, into interface{}) error {
 	}
 	return json.Unmarshal(b, into)
 }
+
+// allDiffs lists every differing path between two decoded JSON values (same notation as firstDiff).
+func allDiffs(a, b interface{}, path string, acc []string) []string {
+	switch ta := a.(type) {
+	case map[string]interface{}:
+		tb, ok := b.(map[string]interface{})
+		if !ok {
+			return append(acc, path+" (kind)")
+		}
+		keys := map[string]bool{}
+		for k := range ta {
+			keys[k] = true
+		}
+		for k := range tb {
+			keys[k] = true
+		}
+		ks := make([]string, 0, len(keys))
+		for k := range keys {
+			ks = append(ks, k)
+		}
+		sort.Strings(ks)
+		for _, k := range ks {
+			x, okx := ta[k]
+			y, oky := tb[k]
+			switch {
+			case !okx:
+				acc = append(acc, path+"/"+k+" (only right)")
+			case !oky:
+				acc = append(acc, path+"/"+k+" (only left)")
+			default:
+				acc = allDiffs(x, y, path+"/"+k, acc)
+			}
+		}
+		return acc
+	case []interface{}:
+		tb, ok := b.([]interface{})
+		if !ok {
+			return append(acc, path+" (kind)")
+		}
+		if len(ta) != len(tb) {
+			return append(acc, fmt.Sprintf("%s (len %d vs %d)", path, len(ta), len(tb)))
+		}
+		for i := range ta {
+			acc = allDiffs(ta[i], tb[i], fmt.Sprintf("%s/%d", path, i), acc)
+		}
+		return acc
+	default:
+		if !bytes.Equal(mustJSON(a), mustJSON(b)) {
+			return append(acc, path+fmt.Sprintf(" (%s vs %s)", trunc(string(mustJSON(a)), 40), trunc(string(mustJSON(b)), 40)))
+		}
+		return acc
+	}
+}
